@@ -116,6 +116,16 @@ def gen_comps(rng, big=2000, maxn=6):
     return ";".join(_with_twin(rng, [gen_plain_comp(rng, big) for _ in range(n)])) or "-"
 
 
+def threshold_comps(rng, enc=True):
+    """component lists beyond the sizes one-byte / 12-bit / 16-bit counters and internal buffers can hold:
+    more than 255 components, payloads of 4 KiB+1 and 64 KiB+1 bytes (plain and encrypted)"""
+    many = ";".join(show_comp([], rbytes(rng, rng.choice([1, 2, 16])), 1, False) for _ in range(rng.choice([256, 257, 300])))
+    d = [(0xC3, b"\x03")]
+    big1 = show_comp(d, rbytes(rng, 4097), 4097, False) + ";" + (show_comp(d + [(0xC2, b"\x02")], rbytes(rng, 4111), 4111, True) if enc else show_comp(d, rbytes(rng, 4111), 4100, False)) + ";" + show_comp([], b"\x01", 1, False)
+    big2 = show_comp(d, rbytes(rng, 65537), 65537, False) + ";" + show_comp([], b"\x02\x00", 2, False)
+    return [many, big1, big2]
+
+
 WORDS = ["FirmwareId", "FirmwareVersion", "Creator", "Configuration", " a", "a b", "Bf3Update", "x" * 30, "ß→☃",
          "K", "1", "-", "#", "key with spaces", "\ttab"]
 VALUES = ["", "1053", "1.02.03", "a:b", "::", "x y  z", "ß→☃ unicode", "v" * 100, "0", "Yes", "a: b: c", "=", ","]
